@@ -31,6 +31,24 @@ use super::super::stmt::{AssignTarget, IrStmt, IrStmtKind};
 use super::super::types::IrType;
 use super::{EmitError, IrEmitter};
 
+/// Build the identifier for one segment of an import path.
+///
+/// Module paths always consist of identifiers, but `import python "<package>"` carries a free-form
+/// string. A segment that cannot be spelled as a Rust identifier is reported as an emit error
+/// (`format_ident!` would panic on it).
+fn import_segment_ident(segment: &str) -> Result<proc_macro2::Ident, EmitError> {
+    use syn::ext::IdentExt;
+    use syn::parse::Parser;
+
+    let spelled = IrEmitter::escape_keyword(segment);
+    syn::Ident::parse_any.parse_str(&spelled).map_err(|_| {
+        EmitError::Unsupported(format!(
+            "cannot import `{}`: it is not a valid Rust identifier",
+            segment
+        ))
+    })
+}
+
 fn join_path_tokens(segments: &[TokenStream]) -> TokenStream {
     let mut ts = TokenStream::new();
     for (idx, seg) in segments.iter().enumerate() {
@@ -451,11 +469,8 @@ impl<'a> IrEmitter<'a> {
                     vec![quote! { incan_stdlib }, quote! { testing }]
                 } else {
                     path.iter()
-                        .map(|s| {
-                            let ident = format_ident!("{}", Self::escape_keyword(s));
-                            quote! { #ident }
-                        })
-                        .collect()
+                        .map(|s| import_segment_ident(s).map(|ident| quote! { #ident }))
+                        .collect::<Result<_, _>>()?
                 };
                 let mut path_tokens: Vec<TokenStream> = Vec::new();
                 let apply_prefix = !(is_stdlib_web || is_stdlib_testing);
